@@ -131,7 +131,7 @@ def r4_initialisation(ctx, res):
 def r5_dispatch(ctx, res):
     from ..speccheck import view, expect
     v = view(ctx, 'morphy', 'Morphy.__call__')
-    disp = 'for list(DETACHMENT_RULES) if pos is None else [pos] if pos in DETACHMENT_RULES else []'
+    disp = 'for ([pos] if pos in DETACHMENT_RULES else []) if pos is not None else list(DETACHMENT_RULES)'
     cand = 'self._morphstr(form, $1) - #1.get(None, set())'
     expect(res, 'dispatch', v, [
         ('new', '#1'),
